@@ -344,6 +344,14 @@ mx(x, o) <-- e(x,y), mx(y,o);
 big(x) <-- mx(x,o), if optge(o,2);
 """, "lat par", bound=4)
 
+# cheapest cost plus a witness: a tuple lattice with a Dual component (join goes through Ord of the components)
+prog("lex_dual_lat", """
+rel w(int,int,int) input; lat best(int,lex_dual_pair); rel via(int,int);
+best(0, tup(dual(0), 0));
+best(y, tup(dual(undual(proj(t,1)) + c), x)) <-- best(x,t), w(x,y,c), if undual(proj(t,1)) + c < 7;
+via(y,x) <-- best(y,t), let x = proj(t,2);
+""", "lat par", bound=3, dom=3)
+
 prog("lex_lat", """
 rel e(int,int) input; lat bst(int,lex_pair);
 bst(x, tup(y, x)) <-- e(x,y);
